@@ -1,8 +1,70 @@
-(* Props/C26.v — property theorems only (placeholder while the proofs are being built). *)
-From Verif Require Import Base.Str Interp.Core Interp.Flags Interp.Sem.
+(* Props/C26.v — C26 "The interpreter runs supported programs like bash": property theorems only.
+
+   Full statement (properties.jsonl): for every program of the supported language the interpreter
+   writes the same stdout and exits with the same status as bash.
+
+   What is proved here, for the CORE language of Interp/Core.v (echo, true, false, ":", assignments,
+   "$x", "$?", !, && ||, lists, { }, ( ), if/elif/else, while/until, for, case with literal patterns,
+   functions and return, break n / continue n, exit n, set -e / set +e, unknown commands):
+   the flag machine transliterated from interp/runner.go (Interp/Flags.v: stop() tests, flags
+   returning/exiting/breakEnclosing/contnEnclosing/inLoop/inFunc/noErrExit/lastExit) computes, for EVERY
+   program, EVERY fuel and every clean initial state, exactly the stdout, status and variables of the
+   structured big-step semantics (Interp/Sem.v), unless the semantics aborts with one of its named
+   classes (Sem.abort: out of fuel, outside the core language, or one of the known divergences
+   ABadCount / ABadStatus / AReturnOutside / ABreakInCond / ASetInIgnored / AEmptyCond).
+   The semantics itself is tied to real bash 5.2, and the machine to the real interp.Runner, by the
+   legs of checks/c26.py on every run.  The model is of the REPAIRED tree: the divergences found while
+   building this proof (statements after break/continue in nested blocks, break through function calls,
+   stale break counters, errexit in negated commands/subshell conditions/compound commands, loop status,
+   return without arguments, for-loop heads, ...) are fix: commits listed in known_findings.jsonl. *)
+From Verif Require Import Base.Str Interp.Core Interp.Flags Interp.Sem Proofs.FlagsProofs.
 From Coq Require Import String.
 Open Scope string_scope.
 
-Example C26_models_compute :
-  obs (run_prog 50 [Stmt false (CCall [WLit (bs "echo")] [[WLit (bs "a")]])] init_st) = ([97; 10]%N, 0%N, []).
+Theorem C26_flags_refines_sem : forall fuel p,
+  is_abort (outc (sem_prog fuel p init_sst)) = false ->
+  obs (run_prog fuel p init_st) = sobs (sem_prog fuel p init_sst).
+Proof. exact flags_refines_sem_init. Qed.
+Print Assumptions C26_flags_refines_sem.
+
+Theorem C26_flags_refines_sem_any_state : forall fuel p s0,
+  clean s0 -> ctxof s0 = top_ctx ->
+  is_abort (outc (sem_prog fuel p (abs s0))) = false ->
+  obs (run_prog fuel p s0) = sobs (sem_prog fuel p (abs s0)).
+Proof. exact flags_refines_sem. Qed.
+Print Assumptions C26_flags_refines_sem_any_state.
+
+(* the same for a single command in any dynamic context (inside loops, functions, conditions) *)
+Theorem C26_cmd_refines_sem : forall fuel c s,
+  clean s -> code (ex s) = 0%N ->
+  noabort (sem fuel (ctxof s) c (abs s)) ->
+  fin (run fuel c s) = fin (appc s (sem fuel (ctxof s) c (abs s)))
+  /\ wfr (ctxof s) (outc (sem fuel (ctxof s) c (abs s)))
+  /\ brk_code_ok c (sem fuel (ctxof s) c (abs s)).
+Proof. exact run_sem. Qed.
+Print Assumptions C26_cmd_refines_sem.
+
+(* non-vacuity: a program with break inside a nested block, a function returning through a loop,
+   errexit suppressed in a condition; the semantics does not abort and both sides print "1\n3\nz\n" *)
+Definition w (s : string) : word := [WLit (bs s)].
+Definition sample : prog :=
+  [ Stmt false (CCall (w "set") [w "-e"]);
+    Stmt false (CFunc (bs "f") (Stmt false (CBlock
+      [Stmt false (CFor (bs "i") [w "1"; w "2"] [Stmt false (CCall (w "echo") [[WVar (bs "i")]]);
+                                                 Stmt false (CCall (w "return") [w "3"])])])));
+    Stmt false (CIf [Stmt false (CCall (w "f") [])] [Stmt false (CCall (w "echo") [w "no"])]
+                    (Some (CIf [] [Stmt false (CCall (w "echo") [[WStatus]])] None)));
+    Stmt false (CFor (bs "j") [w "a"; w "b"]
+      [Stmt false (CBlock [Stmt false (CCall (w "break") []); Stmt false (CCall (w "echo") [w "x"])])]);
+    Stmt false (CCall (w "echo") [w "z"]) ].
+
+Example C26_nonvacuous :
+  is_abort (outc (sem_prog 20 sample init_sst)) = false
+  /\ obs (run_prog 20 sample init_st) = sobs (sem_prog 20 sample init_sst)
+  /\ fst (fst (obs (run_prog 20 sample init_st))) = [49; 10; 51; 10; 122; 10]%N.
+Proof. vm_compute. repeat split. Qed.
+
+(* the named scope exclusions are reachable: e.g. `return 3` outside any function *)
+Example C26_scope_return_outside :
+  outc (sem_prog 20 [Stmt false (CCall (w "return") [w "3"])] init_sst) = OAbort AReturnOutside.
 Proof. vm_compute. reflexivity. Qed.
